@@ -523,6 +523,29 @@ def check_tilegrid(rec, case):
             rec.violation("srtm-tile-grid", case, {"axis": what, "grids_head": other[:3].tolist(),
                                                    "model_head": want[:3].tolist()})
             keys.append("srtm-tile-grid")
+    # call history: the caller post-processes the vectors it was given in place (sorts the latitudes
+    # ascending, shifts the longitudes to 0..360) and asks again later
+    if not keys:
+        try:
+            for v in (g_lat, g_lon):
+                if isinstance(v, np.ndarray) and v.flags.writeable:
+                    v[...] = v[::-1].copy()
+                    v += 360.0
+            rec.ev()
+            rec.count("tilegrid.second_calls")
+            g2_lat, g2_lon = SRTM30.get_grids(name)
+            for what, other, want in (("lat", g2_lat, w_lat), ("lon", g2_lon, w_lon)):
+                other = np.asarray(other)
+                if other.shape != want.shape or np.max(np.abs(other - want)) > m.CENTRE_TOL:
+                    rec.violation("srtm-tile-grid", dict(case, second_call=True),
+                                  {"axis": what, "why": "second get_grids() after the caller changed the "
+                                   "arrays of the first one in place", "grids_head": other[:3].tolist(),
+                                   "model_head": want[:3].tolist()})
+                    keys.append("srtm-tile-grid")
+                    break
+        except Exception as exc:
+            rec.violation("srtm-exception", case, {"where": "tilegrid (second call)", "exception": repr(exc)})
+            keys.append("srtm-exception")
     return keys
 
 
